@@ -244,6 +244,17 @@ def lin_shapes(A):
     return FA([d, o, x], z3.Implies(z3.And(j_has(A[d], o), has_block(A, d, o, x)), z3.And(F2.dim(b, 0) == vsz(o), F2.dim(b, 1) == vsz(x))), has_block(A, d, o, x))
 
 
+def _z3safe(fn):
+    """a specification that no longer fits the sorts of the state (e.g. self.jac rebound to a dict of another type) is undecided, not a crash"""
+    def wrapped(*a, **k):
+        try:
+            return fn(*a, **k)
+        except z3.Z3Exception as e:
+            raise TypeError(f"sort mismatch between the specification and the state: {e}") from e
+    wrapped.__qualname__ = getattr(fn, "__qualname__", "spec")
+    return wrapped
+
+
 class _Additive(Contract):
     targets = (ADD + "._compute_jacobian",)
     prop = ("C09",)
@@ -264,8 +275,8 @@ class AdditiveComputeJacobian(_Additive):
     self_schema = ADD + "#gen"
     params = {"input_names": NAME_LIST, "output_names": NAME_LIST}
     loops = {
-        0: LoopSpec(anchor="self._outputs_to_sum", inv=lambda c, k: _add_inv0(c, k), modifies=("self.jac",)),
-        1: LoopSpec(anchor="input_names", inv=lambda c, k: _add_inv1(c, k), modifies=("self.jac",)),
+        0: LoopSpec(anchor="self._outputs_to_sum", inv=lambda c, k: _z3safe(_add_inv0)(c, k), modifies=("self.jac",)),
+        1: LoopSpec(anchor="input_names", inv=lambda c, k: _z3safe(_add_inv1)(c, k), modifies=("self.jac",)),
     }
 
     def requires(self, c):
@@ -300,8 +311,9 @@ def _add_spec(J, A, L, Os, X, P, k0):
     o, x = S("o!as"), S("x!as")
     return [
         ("summed-blocks", FA([m, j], z3.Implies(z3.And(0 <= m, m < k0, 0 <= j, j < X.n), summed_ok(J, A, L, Os.elems[m], X.elems[j])), z3.MultiPattern(Os.elems[m], X.elems[j]))),
-        ("summed-outputs-have-exactly-the-requested-inputs", FA([m, x], z3.Implies(z3.And(0 <= m, m < k0), z3.And(j_has(J, Os.elems[m]), r_has(j_row(J, Os.elems[m]), x) == _in_names(X, x, tag="as"))),
-                                                                 r_has(j_row(J, Os.elems[m]), x))),
+        # (with "summed-blocks": the summed outputs have exactly the requested inputs)
+        ("summed-outputs-are-present", FA([m], z3.Implies(z3.And(0 <= m, m < k0), j_has(J, Os.elems[m])), Os.elems[m])),
+        ("summed-outputs-have-only-the-requested-inputs", FA([m, x], z3.Implies(z3.And(0 <= m, m < k0, r_has(j_row(J, Os.elems[m]), x)), _in_names(X, x, tag="as")), r_has(j_row(J, Os.elems[m]), x))),
         ("other-outputs-keep-the-merged-entry", FA([o], z3.Implies(z3.Not(_in_names(Os, o, k0, "aso")), z3.And(j_has(J, o) == j_has(P, o), j_row(J, o) == j_row(P, o))), j_row(J, o))),
     ]
 
@@ -320,7 +332,8 @@ def _add_inv1(c, k):
     j = z3.Int("j!a1")
     o, x = S("o!a1"), S("x!a1")
     return [
-        ("current-output-has-the-first-inputs", z3.And(j_has(J, o_), FA([x], r_has(j_row(J, o_), x) == _in_names(X, x, k, "a1"), r_has(j_row(J, o_), x)))),
+        ("current-output-is-present", j_has(J, o_)),
+        ("current-output-has-only-the-first-inputs", FA([x], z3.Implies(r_has(j_row(J, o_), x), _in_names(X, x, k, "a1")), r_has(j_row(J, o_), x))),
         ("first-blocks-are-summed", FA([j], z3.Implies(z3.And(0 <= j, j < k), summed_ok(J, A, L, o_, X.elems[j])), X.elems[j])),
         ("other-outputs-untouched", FA([o], z3.Implies(o != o_, z3.And(j_has(J, o) == j_has(J0, o), j_row(J, o) == j_row(J0, o))), j_row(J, o))),
     ]
